@@ -212,6 +212,21 @@ def has_unsetup(case):
     return any(l["k"] == "unsetup" for _, _, lines in case["decl"] for l in lines)
 
 
+def retaken(case, built):
+    """Class predicate of D72, from the generator's description: the names that are set up at build time although a table
+    of a set-up product (at its build-time version) takes them away again -- as the target of an unsetupRequired /
+    unsetupOptional line or as something below that target -- i.e. products that were taken away and set up again later."""
+    out = set()
+    build = case.get("build") or {}
+    for n, v, lines in case["decl"]:
+        if built.get(n) != v:
+            continue
+        for l in lines:
+            if l["k"] == "unsetup" and l["name"] in build:
+                out |= {l["name"]} | set(reach(case, l["name"], build[l["name"]]))
+    return {x for x in out if x in built}
+
+
 def unsetup_targets(case, built):
     """names that a table of a set-up product (at its build-time version) takes away again"""
     out = set()
